@@ -1050,3 +1050,60 @@ def run_b23(chk, repo):
                                           'the $PK code keeps THETA(3), THETA(4) while $THETA has three records')
     if n == 0:
         raise AnalysisError('B23: no read of internals.old_* found in update_source')
+
+
+def run_b24(chk, repo):
+    """B24: the updater writes `ALAG1 = <lag time>` whenever the dose compartment has a lag time that differs from the one the
+    code was generated for - also when there was a (different) lag time before. The guard of update_lag_time is evaluated over
+    old in {0, A} x new in {0, A, B}"""
+    import itertools
+    from sa import tables as T_
+    from sa import reach
+    from sa.cfg import CFG
+    B24 = chk.rule('B24', 'update_lag_time: ALAG is (re)written iff the new lag time is not 0 and differs from the old one '
+                          '(6 combinations of old / new)', floor=6)
+    um = repo.module('pharmpy.model.external.nonmem.update')
+    f = um.functions.get('update_lag_time')
+    if f is None:
+        raise AnalysisError('B24: update_lag_time not found')
+    cfg = CFG(f.node)
+    # the node that creates the ALAG assignment, and the tests that control it
+    mk = [n for n in cfg.nodes.values() if n.ast is not None and n.kind == 'stmt' and any(
+        isinstance(c, ast.Call) and dotted(c.func) == 'Assignment' and c.args and 'ALAG' in unparse(c.args[0])
+        for c in ast.walk(n.ast))]
+    if not mk:
+        raise AnalysisError('B24: the ALAG assignment is not created in update_lag_time')
+    # names of the two lag times by what they are read from
+    def origin(name):
+        vs = reach.values(cfg, mk[0].id, name) or []
+        return unparse(vs[0][1]) if len(vs) == 1 else ''
+    tests = [t for t in cfg.nodes.values() if t.kind == 'test' and (
+        cfg.edge_dominates(t.id, 'true', mk[0].id) or cfg.edge_dominates(t.id, 'false', mk[0].id))]
+    if not tests:
+        raise AnalysisError('B24: the ALAG assignment is unconditional')
+    names_ = {x.id for t in tests for x in ast.walk(t.ast) if isinstance(x, ast.Name)}
+    old_n = {n for n in names_ if origin(n).startswith('old') and 'lag_time' in origin(n)}
+    new_n = {n for n in names_ if 'lag_time' in origin(n) and not origin(n).startswith('old')}
+    if not old_n or not new_n:
+        raise AnalysisError(f'B24: old / new lag time not identified among {sorted(names_)}')
+    import sympy
+    A, B = sympy.Symbol('MDT_A'), sympy.Symbol('MDT_B')
+    for old, new in itertools.product((0, A), (0, A, B)):
+        env = {**{n: old for n in old_n}, **{n: new for n in new_n}}
+        written = True
+        try:
+            for t in tests:
+                v = bool(T_.eval_pred(t.ast, env))
+                if not (v if cfg.edge_dominates(t.id, 'true', mk[0].id) else not v):
+                    written = False
+        except T_.Undecidable as e:
+            raise AnalysisError(f'B24: cannot evaluate the guard of the ALAG assignment: {e}')
+        want = new != 0 and new != old
+        chk.instance(B24, f'old lag {old}, new lag {new}: ALAG written {written} (expected {want})')
+        if written != want:
+            chk.violation(B24, um.rel, f.qualname, f'old lag time {old}, new lag time {new}: written={written}',
+                          'the model has the new lag time while the generated $PK ' + (
+                              'has no ALAG1 at all (add_lag_time removed the old assignment)' if want else
+                              'gets an ALAG1 assignment that is not wanted'), line=tests[0].line,
+                          witness='add_lag_time twice (or on a model that defines ALAG1 itself): the model has lag_time=MDT '
+                                  'with its theta, the code has no ALAG1')
